@@ -44,8 +44,8 @@ def run(ctx):
                        '(d) the parsec_atomic_* wrappers bottom out in the builtin of the same operation with the operand the name promises.')
     ctx.not_decided = 'liveness; creation of the dependency word in the hash table; all schedules are covered only through the all-paths clauses.'
     u = ctx.extract(UNIT)
-    ra = ctx.rule('R07.a', 'verdict depends on *deps only through an atomic RMW result', floor=4)
-    rb = ctx.rule('R07.b', 'exactly one effective update per path, post-value compared', floor=4)
+    ra = ctx.rule('R07.a', 'verdict depends on *deps only through an atomic RMW result', floor=3)
+    rb = ctx.rule('R07.b', 'exactly one effective update per path, post-value compared', floor=3)
     rc = ctx.rule('R07.c', 'goal provenance (check_IN of the same mode)', floor=2)
     rd = ctx.rule('R07.d', 'atomic wrapper table agrees with atomic.h / atomic-gcc.h', floor=12)
 
